@@ -379,4 +379,44 @@ theorem strandROrder_wf (h : StrandWF c d) : (strandROrder (strandBlocks c d) d)
 
 end strand
 
+/-! ## position-valued outputs are renumbered by the re-indexing -/
+
+theorem getElem?_idxOf_of_mem {l : List Int} {x : Int} (h : x ∈ l) : l[l.idxOf x]? = some x := by
+  have hlt := List.idxOf_lt_length_of_mem h
+  rw [List.getElem?_eq_getElem hlt]
+  simp
+
+/-- a position is flagged under the order `o` iff the position of the same vector in `o0` is
+    flagged under `o0` -/
+theorem flagPositions_renumber (flags : List Bool) (o o0 : List Int) (hsub : ∀ x ∈ o, x ∈ o0) (p : Nat) :
+    p ∈ flagPositions flags o ↔ ∃ x, o[p]? = some x ∧ o0.idxOf x ∈ flagPositions flags o0 := by
+  rw [mem_flagPositions]
+  constructor
+  · rintro ⟨x, hx, hf⟩
+    refine ⟨x, hx, (mem_flagPositions _ _ _).2 ⟨x, getElem?_idxOf_of_mem (hsub x (List.mem_of_getElem? hx)), hf⟩⟩
+  · rintro ⟨x, hx, hm⟩
+    obtain ⟨y, hy, hf⟩ := (mem_flagPositions _ _ _).1 hm
+    rw [getElem?_idxOf_of_mem (hsub x (List.mem_of_getElem? hx))] at hy
+    simp only [Option.some.injEq] at hy
+    exact ⟨x, hx, hy ▸ hf⟩
+
+theorem negPositions_renumber (o o0 : List Int) (hsub : ∀ x ∈ o, x ∈ o0) (p : Nat) :
+    p ∈ negPositions o ↔ ∃ x, o[p]? = some x ∧ o0.idxOf x ∈ negPositions o0 := by
+  rw [mem_negPositions]
+  constructor
+  · rintro ⟨x, hx, hf⟩
+    refine ⟨x, hx, (mem_negPositions _ _).2 ⟨x, getElem?_idxOf_of_mem (hsub x (List.mem_of_getElem? hx)), hf⟩⟩
+  · rintro ⟨x, hx, hm⟩
+    obtain ⟨y, hy, hf⟩ := (mem_negPositions _ _).1 hm
+    rw [getElem?_idxOf_of_mem (hsub x (List.mem_of_getElem? hx))] at hy
+    simp only [Option.some.injEq] at hy
+    exact ⟨x, hx, hy ▸ hf⟩
+
+/-- the label / code / alias / fill index vector re-indexes like a value vector -/
+theorem labelIdxs_reindex (n : Nat) (o o0 : List Int) (hsub : ∀ x ∈ o, x ∈ o0) :
+    o.map (wrapIdx n) = o.map fun x => (o0.map (wrapIdx n)).getD (o0.idxOf x) 0 := by
+  apply List.map_congr_left
+  intro x hx
+  exact (CrCube.C05.getD_idxOf_map o0 (wrapIdx n) x 0 (hsub x hx)).symm
+
 end CrCube.Pipeline
